@@ -52,6 +52,7 @@ type Ctx struct {
 	notes    []string
 	capped   bool
 	maxCases int
+	trace    bool
 	next     int // first own case not run because the worker is being recycled
 	deadline time.Time
 }
@@ -83,6 +84,7 @@ func FromEnv() *Ctx {
 		vsigs:    map[string]int64{},
 		next:     -1,
 		maxCases: envInt("VF_MAXCASES", 0),
+		trace:    os.Getenv("VF_TRACE") != "",
 	}
 	if c.Tier == "" {
 		c.Tier = "quick"
@@ -208,6 +210,21 @@ func (c *Ctx) Violation(sig, detail string) {
 
 func (c *Ctx) Violationf(sig, format string, a ...interface{}) {
 	c.Violation(sig, fmt.Sprintf(format, a...))
+}
+
+// Mark names the scenario about to run inside the current case. With
+// VF_TRACE=1 (set by the orchestrator when it replays a case that killed a
+// worker) the mark is written and flushed, so the scenario that was running
+// when the process died can be named.
+func (c *Ctx) Mark(class, desc string) {
+	if !c.trace {
+		return
+	}
+	if len(desc) > 600 {
+		desc = desc[:600] + "…"
+	}
+	c.emit(map[string]interface{}{"t": "M", "n": c.cur, "class": class, "d": desc})
+	c.out.Flush()
 }
 
 // Count adds to a named coverage counter.
